@@ -178,8 +178,10 @@ class World(object):
     def __init__(self, definitions=(), workbooks=(), clock=None,
                  defer_post_tx=False, db=None, expr_stub=None,
                  conf=None, project_id='proj-a', is_admin=False,
-                 sym_ids=False, multi_process=False):
+                 sym_ids=False, multi_process=False,
+                 sym_upstream_order=False):
         self.sym_ids = sym_ids
+        self.sym_upstream_order = sym_upstream_order
         self.multi_process = multi_process
         self.project_id = project_id
         self.is_admin = is_admin
@@ -288,6 +290,26 @@ class World(object):
             from mistral import expressions
             st.enter_context(env.patched(expressions, 'evaluate',
                                          self.expr_stub))
+        if self.sym_upstream_order:
+            # the upstream task executions are SELECTed without ORDER BY
+            # (sort_keys=[]): the database may list them in any order
+            from mistral.workflow import data_flow
+            real_up = data_flow.evaluate_upstream_context
+
+            def permuted(upstream_task_execs, additive_context=None):
+                if isinstance(upstream_task_execs, list) and \
+                        len(upstream_task_execs) > 1:
+                    rest = list(upstream_task_execs)
+                    out = []
+                    while len(rest) > 1:
+                        x = symx.choice('upstream_order', rest)
+                        rest.remove(x)
+                        out.append(x)
+                    upstream_task_execs = out + rest
+                return real_up(upstream_task_execs, additive_context)
+            st.enter_context(env.patched(data_flow,
+                                         'evaluate_upstream_context',
+                                         permuted))
         self.engine = default_engine.DefaultEngine()
         for name, rec in fixtures:
             self.db.put(getattr(models, name), **minidb._copy_val(rec))
